@@ -21,6 +21,8 @@ from ufl.corealg.multifunction import MultiFunction
 from ufl.domain import extract_domains, extract_unique_domain
 from ufl.form import Form
 from ufl.integral import Integral
+from ufl.pullback import SymmetricPullback
+from ufl.utils.sequences import product
 from ufl.utils.indexflattening import flatten_multiindex, shape_to_strides
 
 
@@ -187,7 +189,17 @@ class SumDegreeEstimator(MultiFunction):
             if isinstance(op, Coefficient):
                 element = self.element_replace_map.get(element, element)
             sub_elements = element.sub_elements
-            if sub_elements and len(multiindex) == len(op.ufl_shape):
+            # The walk below identifies the flat physical component with the flat
+            # reference component. That is only valid if the element's component map
+            # is the identity, i.e. not for symmetric elements or for sub-elements
+            # whose physical value size differs from their reference value size;
+            # in those cases fall back to the degree of the whole element.
+            if (
+                sub_elements
+                and len(multiindex) == len(op.ufl_shape)
+                and not isinstance(element.pullback, SymmetricPullback)
+                and product(op.ufl_shape) == element.reference_value_size
+            ):
                 component = flatten_multiindex(
                     [int(idx) for idx in multiindex], shape_to_strides(op.ufl_shape)
                 )
